@@ -204,6 +204,8 @@ sites["stubs"] = SITES_STUB
 sites["native_rewrite"] = ["motion.go:motionDetector.updateBackground=zzStubUpdateBackground", "motion.go:motionDetector.calculateThreshold=zzStubCalcThreshold"]
 c15.append(sites)
 c15.append([j for j in thr_jobs() if j["name"] == "step_a"][0])
+c15.append([j for j in aux_jobs(1) if j["name"] == "step_faults"][0])
+c15.append(mp_jobs()[0])
 specs["C15"] = {"property": "C15",
     "explanation": "Bounded symbolic verification of the dynamic-threshold code of motion/motion.go with SMT FloatingPoint semantics (RNE; float->uint16 conversion RTZ). Lemmas, each from an arbitrary background state (all background pixels, float32 weights >= 0, frame counters, previous-FFC flag, thresholds symbolic): (update) after updateBackground every interior background pixel is <= the new frame's pixel, equals it after an FFC or on (re)seeding (backgroundFrames 0), weights stay non-negative, every border pixel equals the nearest interior pixel, and for 1- and 2-pixel interiors the returned average is exactly sum/n; (clamp) calculateThreshold yields trunc(avg) limited to [temp-thresh-min, temp-thresh-max] for every avg in [0,65536) and every unset/set combination with min <= max; (sites) with updateBackground and calculateThreshold replaced by recording stubs, Detect changes the threshold only via calculateThreshold applied to the average returned by updateBackground in the same call, never on an FFC-affected frame or with a fixed threshold, and passes the previous-FFC flag; (detect) end-to-end cross-check for 1-pixel interiors. That the background/threshold in force are handed to the recorder at the trigger, and remembered for throttle restarts, is asserted in the C01 and C06 harnesses (labels tagged C15).",
     "assumptions": COMMON_ASSUME + ["weights are non-negative non-NaN float32 (they start at 0 and are only reset to 0 or incremented and capped)", "min <= max when both bounds are set"],
@@ -233,7 +235,7 @@ TR = "github.com/TheCacophonyProject/thermal-recorder"
 CONN_STUBS = {
     "bufio.NewReader": "zzStubNewReader", TR + "/headers.ReadHeaderInfo": "zzStubReadHeaderInfo",
     f"(*{TR}/cmd/thermal-recorder.Config).LoadMotionConfig": "zzStubLoadMotionConfig", "gopkg.in/yaml.v2.Marshal": "zzStubMarshal",
-    "os.Mkdir": "zzStubMkdir", "io.ReadFull": "zzStubReadFull", f"(*{TR}/motion.MotionProcessor).Process": "zzStubProcess",
+    "os.Mkdir": "zzStubMkdir", "io.ReadFull": "zzStubReadFull", "(*bufio.Reader).Read": "zzStubRead", f"(*{TR}/motion.MotionProcessor).Process": "zzStubProcess",
     f"(*{TR}/motion.MotionProcessor).Reset": "zzStubReset", TR + "/leptondController.RestartCamera": "zzStubRestartCamera",
     TR + "/leptondController.SetAutoFFC": "zzStubSetAutoFFC"}
 CONN_REWRITE = ["config.go:Config.LoadMotionConfig=zzStubLoadMotionConfig", "/motion/motionprocessor.go:MotionProcessor.Process=@ZZHookProcess",
@@ -253,7 +255,7 @@ def conn_jobs():
     J("conn_wiring", {"K": [1], "THR": [0, 1], "CR": [0, 1], "MODEL": [0, 1, 2, 3]})
     return jobs
 
-HDR_STUBS = {"(*bufio.Reader).ReadString": "zzStubReadString", "(*bytes.Buffer).WriteString": "zzStubWriteString", "(*bytes.Buffer).Bytes": "zzStubBytes",
+HDR_STUBS = {"(*bufio.Reader).ReadString": "zzStubReadString", "(*bytes.Buffer).WriteString": "zzStubWriteString", "(*bytes.Buffer).Bytes": "zzStubBytes", "(*bytes.Buffer).Len": "zzStubLen",
              "strings.Trim": "zzStubTrim", "gopkg.in/yaml.v1.Unmarshal": "zzStubUnmarshal"}
 CONN_EXPL = ("handleConn (cmd/thermal-recorder/main.go) is executed symbolically from its real SSA with the socket, the header parser, the config loader, YAML, D-Bus calls and "
              "MotionProcessor.Process/Reset replaced by contract stubs: io.ReadFull reads from a ghost byte stream made of K items (8-byte frames with arbitrary content, or the 5-byte 'clear' marker, kinds symbolic) followed by a fragment of 0..7 arbitrary bytes (connection cut at any point); "
@@ -271,9 +273,19 @@ specs["C11"] = {"property": "C11",
     "assumptions": COMMON_ASSUME + ["one concrete configuration with pairwise distinct values per job (it sizes buckets and rings)"],
     "outside_claim": ["pixel/telemetry round-trip through go-cptv's compressor and reader (math.Log2 bit widths, bit packing, gzip): not decided by this machinery", "config.toml text -> viper/mapstructure (reflection) and YAML text", "the header handed to WriteHeader at StartRecording (MotionConfig + triggeredthresh, BackgroundFrame): go-cptv file writer is I/O"],
     "stubs_doc": ["see C14"], "jobs": conn_jobs()}
+CP = "github.com/TheCacophonyProject/go-cptv"
+START_JOB = {"name": "start_header", "pkg": "cmd/thermal-recorder", "harness": "main", "entry": "ZZ_C11_start", "grid": {"th1": [2900], "th2": [3117, 0]},
+             "stubs": {"gopkg.in/yaml.v2.Marshal": "zzStubMarshal", CP + ".NewFileWriter": "zzStubNewFileWriter", f"(*{CP}.Writer).WriteHeader": "zzStubWriteHeader",
+                       f"(*{CP}.FileWriter).Close": "zzStubFWClose", f"(*{CP}.FileWriter).Name": "zzStubFWName", TR + "/cmd/thermal-recorder.newRecordingTempName": "zzStubTempName",
+                       TR + "/cmd/thermal-recorder.renameTempRecording": "zzStubRenameTemp", TR + "/leptondController.SetAutoFFC": "zzStubSetAutoFFC2"}}
+specs["C11"]["jobs"].append(START_JOB)
+specs["C11"]["explanation"] += " A second job executes NewCPTVFileRecorder and two consecutive StartRecording calls of the same recorder (first one optionally failing at file creation or at the header) with the go-cptv file writer replaced by recording stubs: the header handed to WriteHeader carries the motion YAML plus exactly this trigger's threshold line, this trigger's background frame, the device/camera description, and nothing leaks from the previous recording; natively the real go-cptv writes the file and the header is read back with the standard reader."
+specs["C11"]["outside_claim"] = [x for x in specs["C11"]["outside_claim"] if "WriteHeader" not in x]
 for pid in ["C05", "C17", "C13"]:
     specs[pid]["jobs"] = specs[pid]["jobs"] + conn_jobs()[1:]
     specs[pid]["outside_claim"] = [x for x in specs[pid]["outside_claim"] if "wiring" not in x]
+
+specs["C09"]["jobs"] = specs["C09"]["jobs"] + [mp_jobs()[0], [j for j in aux_jobs(1) if j["name"] == "step_faults"][0]]
 
 os.makedirs("/verif/checks", exist_ok=True)
 for pid, sp in specs.items():
